@@ -248,6 +248,59 @@ func (t *treeTracer) detect(sample string, in []byte, limit int64, entry string,
 	return rec
 }
 
+type faultReader struct {
+	data []byte
+	n    int
+}
+
+var errInjected = fmt.Errorf("injected read fault")
+
+func (f *faultReader) Read(p []byte) (int, error) {
+	if f.n >= len(f.data) {
+		return 0, errInjected
+	}
+	k := copy(p, f.data[f.n:])
+	f.n += k
+	return k, nil
+}
+
+func (t *treeTracer) detectErr(kind, tmpdir string) *detectTrace {
+	t.consults = nil
+	t.leaf = 0
+	var res *mimetype.MIME
+	var err error
+	switch kind {
+	case "DetectFile-missing":
+		res, err = mimetype.DetectFile(filepath.Join(tmpdir, "does-not-exist"))
+	case "DetectFile-dir":
+		res, err = mimetype.DetectFile(tmpdir)
+	case "DetectReader-fault0":
+		res, err = mimetype.DetectReader(&faultReader{})
+	case "DetectReader-fault5":
+		res, err = mimetype.DetectReader(&faultReader{data: []byte("%PDF-")})
+	}
+	rec := &detectTrace{Ev: "detect", Hid: 0, Limit: 3072, Entry: kind, Sample: kind, Consults: [][2]int{}, Err: err != nil,
+		BufOK: true, Params: []string{}, Recheck: [][2]int{}, Chain: [][2]string{}}
+	if res != nil {
+		rec.Full = res.String()
+		for m, i := res, 0; m != nil && i < 64; m, i = m.Parent(), i+1 {
+			base, params, perr := mime.ParseMediaType(m.String())
+			if perr != nil {
+				base = m.String()
+			}
+			if i == 0 {
+				rec.ParseOK = perr == nil
+				rec.Base = base
+				for k := range params {
+					rec.Params = append(rec.Params, k)
+				}
+			}
+			rec.Chain = append(rec.Chain, [2]string{base, m.Extension()})
+		}
+	}
+	return rec
+}
+
 func init() { cmds["treetrace"] = treetraceMain }
 
 func treetraceMain(args []string) int {
@@ -381,6 +434,12 @@ func treetraceMain(args []string) int {
 					}
 				}
 			}
+		}
+		// error paths: the value must be exactly application/octet-stream (C02, C05)
+		mimetype.SetLimit(3072)
+		for _, e := range []string{"DetectFile-missing", "DetectFile-dir", "DetectReader-fault0", "DetectReader-fault5"} {
+			t.emit(t.detectErr(e, tmp))
+			detections++
 		}
 		mimetype.VerifHook = nil
 		t.w.Flush()
